@@ -181,7 +181,10 @@ def gen_case2(rng):
             'align': rng.choice([1, 4, 4, 4, 8]),                      # padding between files (1 = none)
             'split': rng.choice(['fixed4', 'fixed4', 'random', 'one', 'perfile']), 'unit': unit,
             'legacy': rng.random() < 0.45, 'style': rng.choice(['compact', 'utf8', 'utf8', 'spaced', 'indented']),
-            'mac_length': rng.choice([64, 64, 32, 16]), 'shuffle': rng.random() < 0.7, 'two': rng.random() < 0.3,
+            'mac_length': rng.choice([64, 64, 32, 16]), 'shuffle': rng.random() < 0.7,
+            'later': [[{'file': i, 'kind': rng.choice(['changed', 'emptied', 'emptied', 'filled'])}
+                       for i in rng.sample(range(len(files)), min(len(files), rng.choice([1, 1, 2])))]
+                      for _ in range(rng.choice([1, 1, 2]))] if files and rng.random() < 0.45 else [],
             'drop_empty_refs': rng.random() < 0.5, 'concurrent': rng.choice([1, 2, 5]),
             # st_size recorded by a stat() after the file grew / was rotated: differs from the data the ranges define
             'size_skew': rng.choice([0, 0, 0, -1, 1, -1000, 7, 4096]),
@@ -636,10 +639,30 @@ def layout2(case):
     base = [make_content(rng, f['size'], f['kind'], shared) for f in case['files']]
     snaps = [list(range(len(base)))]
     contents = {0: base}
-    if case['two'] and base:
-        newer = bytes(reversed(base[0])) + rng.randbytes(rng.choice([0, 1, 9]))
-        contents[1] = [newer]
-        snaps.append([0])
+    # later (newer) snapshots re-record some paths: changed, emptied (an empty file: no data, hence no chunk
+    # references) or filled (new unrelated content, e.g. over a version that was empty)
+    later = case.get('later')
+    if later is None:
+        later = [[{'file': 0, 'kind': 'changed'}]] if case.get('two') else []
+    current = list(base)
+    for edits in later:
+        idxs, blobs = [], []
+        for e in edits:
+            i = e['file']
+            if i >= len(base) or i in idxs:
+                continue
+            if e['kind'] == 'emptied':
+                new = b''
+            elif e['kind'] == 'filled':
+                new = rng.randbytes(rng.randint(1, 40))
+            else:
+                new = bytes(reversed(current[i])) + rng.randbytes(rng.choice([0, 1, 9]))
+            current[i] = new
+            idxs.append(i)
+            blobs.append(new)
+        if idxs:
+            contents[len(snaps)] = blobs
+            snaps.append(idxs)
     layouts = []
     for k, idxs in enumerate(snaps):
         blobs = contents[k]
@@ -1207,6 +1230,10 @@ def do_dir2(rep, ctx, cases, with_model=True):
         rep.count('d2_legacy_metadata' if case['legacy'] else 'd2_current_metadata')
         rep.count('d2_split=' + case['split'])
         rep.count('d2_json=' + case['style'])
+        rep.count('d2_snapshots=%d' % len(layouts[i]))
+        for edits in case.get('later') or []:
+            for e in edits:
+                rep.count('d2_newer_version=' + e['kind'])
         rep.count('d2_st_size_skew=%d' % case.get('size_skew', 0))
         rep.count('d2_align=%d' % case['align'])
         rep.sample({'direction': 2, 'config': case['config'], 'files': [f['size'] for f in case['files']], 'chunk_lengths': layouts[i][0]['clens'][:12],
